@@ -290,4 +290,10 @@ def run(repo, tier) -> Result:
     from .common import shipped_analyses as _sa
 
     check_taint("C10", res, repo, _sa(repo, res), branches_too=False)
+    # ranges such as AROON's [0, 100] and COUNT's step rest on the look-back helpers answering for exactly the asked window
+    from ..contracts import check_all as _contracts
+    from .c17 import check_movement_contracts
+
+    _contracts("C10", res, repo)
+    check_movement_contracts("C10", res, repo)
     return res
